@@ -182,6 +182,26 @@ def gen_labels(pid, tier, rng):
     return progs
 
 
+def gen_bad_label_numbers(pid):
+    import random
+    rng0 = random.Random('badlabel')
+    """Storage unit sequence numbers that are no positive integer of at most four digits (at creation, or assigned to the
+    label later): refused, or the label is still well-formed and carries the number."""
+    progs = []
+    for i, (seq, how) in enumerate([(-3, 'kw'), (0, 'kw'), (10000, 'kw'), (-3, 'label'), (0, 'set'), (-12, 'set'), (99999, 'set'), (2.5, 'set'), (2.5, 'kw')]):
+        p = Prog(f'{pid}-badseq-{i}', {'kind': 'badlabel', 'fringe': True, 'seq': seq, 'how': how})
+        simple_file(p, rng0, vrl=256, nchan=1, rows=2)
+        if how == 'kw':
+            p.steps[0].update({'seq': seq})
+        elif how == 'label':
+            p.steps[0].update({'seq': seq, 'label': 'ready'})
+        else:
+            p.set_sul(1, 'sequence_number', seq)
+        p.write(1, valid=False, either=True)
+        progs.append(p.build())
+    return progs
+
+
 def gen_label_rewrite(pid, tier, rng):
     """The same DLISFile written as several units of a storage set: the label attributes are changed between the writes."""
     progs = []
@@ -230,7 +250,7 @@ def gen_small_files(pid, tier, rng, n=None):
 
 def gen_C01(tier, seed):
     rng = rng_for('C01', tier, seed)
-    return (gen_framing_grid('C01', tier, rng) + gen_labels('C01', tier, rng) + gen_label_rewrite('C01', tier, rng) + gen_invalid_vrl('C01', tier, rng)
+    return (gen_framing_grid('C01', tier, rng) + gen_labels('C01', tier, rng) + gen_bad_label_numbers('C01') + gen_label_rewrite('C01', tier, rng) + gen_invalid_vrl('C01', tier, rng)
             + gen_small_files('C01', tier, rng))
 
 
